@@ -7,6 +7,9 @@ import json, os, shutil, subprocess, sys, tempfile
 from concurrent.futures import ThreadPoolExecutor
 V = "/verif"
 props = [c["property_id"] for c in json.load(open(V + "/MANIFEST.json"))["checks"]]
+if os.environ.get("PROPS"):
+    props = os.environ["PROPS"].split(",")   # partial run: detect.json is NOT rewritten
+PARTIAL = bool(os.environ.get("PROPS"))
 seeds = [os.path.abspath(p) for p in sys.argv[1:]] or sorted(os.path.join(V, "seeded", d) for d in os.listdir(V + "/seeded") if os.path.isdir(os.path.join(V, "seeded", d)))
 
 def one(sd):
@@ -27,24 +30,44 @@ def one(sd):
             nv = sum(1 for l in q.stdout.splitlines() if l.startswith("VIOLATION"))
             if nv:
                 res[p] = {"violations": nv, "first": [l.strip()[:300] for l in lines[:2]]}
-        json.dump(res, open(os.path.join(sd, "detect.json"), "w"), indent=1)
+        if not PARTIAL:
+            json.dump(res, open(os.path.join(sd, "detect.json"), "w"), indent=1)
+        elif os.environ.get("SHOW"):
+            print(json.dumps(res, indent=1)[:3000])
         return name, res
     finally:
         shutil.rmtree(tmp, ignore_errors=True)
 
 with ThreadPoolExecutor(int(os.environ.get("JOBS", "4"))) as ex:
     out = dict(ex.map(one, seeds))
-lines = ["# Seeded changes x checks (quick tier)", "", "| seed | target property | detected by | first report |", "|---|---|---|---|"]
-for s in sorted(out):
-    meta = json.load(open(os.path.join(V, "seeded", s, "meta.json"))) if os.path.exists(os.path.join(V, "seeded", s, "meta.json")) else {}
-    r = out[s]
+# the matrix always lists every seed that has a detect.json on disk (not only the ones run just now)
+lines = ["# Seeded changes x checks (quick tier)", "", "Breaking seeds must be detected; benign refactors (kind benign-refactor) must stay silent.", "",
+         "| seed | kind | target property | detected by | first report |", "|---|---|---|---|---|"]
+allseeds = sorted(d for d in os.listdir(V + "/seeded") if os.path.exists(os.path.join(V, "seeded", d, "detect.json")))
+nb = nd = ng = ns = 0
+for s in allseeds:
+    mp = os.path.join(V, "seeded", s, "meta.json")
+    meta = json.load(open(mp)) if os.path.exists(mp) else {}
+    r = json.load(open(os.path.join(V, "seeded", s, "detect.json")))
     det = sorted(k for k in r if not k.startswith("_"))
+    benign = meta.get("kind") == "benign-refactor"
     first = ""
-    tgt = meta.get("property", "?")
+    tgt = meta.get("property", "-" if benign else "?")
     if tgt in r:
         first = r[tgt]["first"][0] if r[tgt]["first"] else ""
     elif det:
         first = r[det[0]]["first"][0] if r[det[0]]["first"] else ""
-    lines.append("| %s | %s | %s | %s |" % (s, tgt, ", ".join(det) or ("**MISSED**" if "_apply" not in r else r["_apply"]), first.replace("|", "\\|")[:200]))
+    if benign:
+        ng += 1
+        ns += 0 if det else 1
+        verdict = ("**FALSE ALARM** " + ", ".join(det)) if det else "silent (as required)"
+    else:
+        nb += 1
+        nd += 1 if det else 0
+        verdict = ", ".join(det) or ("**MISSED**" if "_apply" not in r else r["_apply"])
+    lines.append("| %s | %s | %s | %s | %s |" % (s, "benign" if benign else "breaking", tgt, verdict, first.replace("|", "\\|")[:200]))
+lines.insert(3, "Totals: %d/%d breaking seeds detected, %d/%d benign refactors silent." % (nd, nb, ns, ng))
 open(V + "/seeded/MATRIX.md", "w").write("\n".join(lines) + "\n")
-print("\n".join(lines[4:]))
+for s in sorted(out):
+    r = out[s]
+    print(s, "->", ", ".join(sorted(k for k in r if not k.startswith("_"))) or "silent", r.get("_apply", ""))
